@@ -242,7 +242,7 @@ func runAtomic(c *gx.Ctl, p *atomicParams) *gx.Outcome {
 		lk = newLockCtl(c)
 		s.OwnerFn = lk.owner
 		sarama.VerifSetOnLock(lk.onLock)
-		defer sarama.VerifSetOnLock(nil) // process-global: never leave it installed
+		defer sarama.VerifSetOnLock(nil)            // process-global: never leave it installed
 		c.GateRank = func(string) int { return -1 } // default schedule: a running call runs to completion; deviations = preemptions at lock acquisitions
 	}
 	// counters that delimit what a read may have seen: [certainly applied at its start, possibly applied at its end]
